@@ -105,14 +105,17 @@ def write_session(d, members, chain=None, password=None, header="encoded", targe
         obj.seek(0)
     try:
         try:
-            z = py7zr.SevenZipFile(obj, mode, filters=filters, password=password, header_encryption=(header == "encrypted_ctor"))
+            z = py7zr.SevenZipFile(obj, mode, filters=filters, password=password, header_encryption=header.startswith("encrypted_ctor"))
         except UnsupportedCompressionMethodError as e:
             raise Rejected(str(e)[:200])
         try:
             if header == "raw":
                 z.set_encoded_header_mode(False)
-            elif header == "encrypted_setter":
+            elif header.startswith("encrypted_setter"):
                 z.set_encrypted_header(True)
+            if header.endswith("+unpacked"):
+                # header encryption asked for, then the header asked to be stored unpacked: the first request stands
+                z.set_encoded_header_mode(False)
             for i, (name, data) in enumerate(members):
                 how = entry if entry != "mixed" else ("writestr", "writef_bytesio", "writef_buffered")[i % 3]
                 if how == "writestr":
